@@ -1204,9 +1204,31 @@ def wrong_op_queries(propset, tier):
     return _sparse_witness(qs, 8)
 
 
+def any_script_queries(propset, K, checks="func"):
+    """EVERY op sequence (not only protocol-following ones) of exactly K ops behind the root enter, on the smallest trees, mode ANY"""
+    import itertools
+    from .shapes import Node
+    from . import shapes
+    trees = [(1, Node("O", [], [])), (1, Node("O", [Node("T")], [0])), (1, Node("O", [Node("O", [], [])], [0])), (1, Node("O", [Node("A", [], [])], [0])),
+             (2, Node("A", [], [])), (2, Node("A", [Node("T")], [])), (2, Node("A", [Node("O", [], [])], [])), (2, Node("A", [Node("A", [], [])], [])),
+             (2, Node("A", [Node("T"), Node("O", [], [])], []))]
+    qs = []
+    for root, node in trees:
+        first = "GO" if root == 1 else "GA"
+        for tail in itertools.product(("GO", "GA", "N", "LO", "LA", "RAW"), repeat=K):
+            s = [first] + list(tail)
+            q = shape_script_query(propset, node, s, "any", root, extra={"MODE": 3}, checks=checks)
+            q.name = "anyscripts.p%d.%s.%s" % (propset, node.label(), "-".join(s))
+            q.tags.update({"family": "H-ANY", "variant": "every op sequence of length %d behind the root enter" % K})
+            q.group = "h_script.anyscripts.p%d" % propset
+            qs.append(q)
+    return _sparse_witness(qs, 32)
+
+
 def plan_C16(tier):
     qs = []
     qs += wrong_op_queries(16, tier)
+    qs += any_script_queries(16, 2 if tier == "quick" else 4)
     ns = (2, 4, 5, 6) if tier == "quick" else range(2, 13)
     for n in ns:
         for root in (1, 2):
@@ -1461,6 +1483,7 @@ def plan_C01_full(tier):
         qs.append(doc_query("C01", 1, n, 1, root, checks="mem"))
     if tier != "quick":
         qs += wrong_op_queries(1, "quick")
+        qs += any_script_queries(1, 3, checks="mem")
         # max_depth 255 with a state array of exactly 255 entries: 255 nested objects accepted, 256 => MAX_DEPTH_OBJECT,
         # all memory checks (structure concrete; about 25 minutes for both)
         qs += [deep_object_query(255, 255), deep_object_query(256, 255), deep_object_query(12, 10), deep_object_query(11, 10)]
